@@ -516,7 +516,7 @@ theorem step_stores {R} (hR : StoreRel R) (s : Sys) (op : Op) (hs : s.started = 
   simp only at hs
   subst hs
   cases op with
-  | cfg n q cap => simp [step]; exact StoresRel.refl hR _
+  | cfg n q cap fr => simp [step]; exact StoresRel.refl hR _
   | crash i =>
     simp only [step]
     cases hn : Sys.node? ⟨n, q, cap, true, nodes, owners⟩ i with
